@@ -141,7 +141,7 @@ def tlc_lines(out_path, prefix):
 TRACE_CFG = "SPECIFICATION Spec\nPOSTCONDITION AllConsumed\nCHECK_DEADLOCK FALSE\n"
 
 
-def trace_validate(module, path, name, timeout=3600, xmx="6g"):
+def trace_validate(module, path, name, timeout=3600, xmx="6g", extra_states=None):
     """Validate an ndjson trace with spec/<module>.tla.  Returns (events, bad) where bad is
     the list of (1-based line, event) that the specification rejects.  A trace that is not
     consumed to its end is a tool error (the trace spec itself is stuck)."""
@@ -155,7 +155,8 @@ def trace_validate(module, path, name, timeout=3600, xmx="6g"):
             if line.startswith('"UNCONSUMED'):
                 raise ToolError("trace %s not consumed: %s" % (path, line))
     events = [json.loads(x) for x in open(path)]
-    if r["distinct"] != len(events) + 1:
+    extra = extra_states(events) if extra_states else 0
+    if r["distinct"] != len(events) + 1 + extra:
         raise ToolError("trace %s: %d events but %d states" % (path, len(events), r["distinct"]))
     return events, [(i, events[i - 1]) for i in bad], r
 
